@@ -19,6 +19,7 @@ import (
 	"os"
 	"os/exec"
 	"path/filepath"
+	"regexp"
 	"runtime"
 	"strconv"
 	"strings"
@@ -630,6 +631,9 @@ func c15Anchors(ctx *core.Ctx) {
 		{"column_chunk.go", "func (r *columnChunkValueReader) ReadValues(", []string{"r.page = p", "r.values = p.Values()", "r.values.ReadValues(values)", "r.clear()"}, map[string]int{"Release(": 0}},
 		{"column_chunk.go", "func (r *columnChunkValueReader) SeekToRow(", []string{"r.pages.SeekToRow(rowIndex)", "r.clear()"}, map[string]int{"Release(": 0}},
 		{"buffer.go", "func (p *bufferedPage) ReleaseAndDetachValues()", []string{"Release(p.Page)", "bufferUnref(p.offsets)", "bufferUnref(p.definitionLevels)", "bufferUnref(p.repetitionLevels)"}, map[string]int{"bufferUnref(p.values)": 0}},
+		// page wrappers of row group views (PoolProto.viewReaderProg): the wrapper forwards the detach
+		{"convert.go", "func (p *convertedPage) ReleaseAndDetachValues()", []string{"releaseAndDetachValues(p.page)"}, map[string]int{"Release(p.page)": 0, "(p.page)": 1}},
+		{"convert.go", "func (p *convertedPages) ReadPage()", []string{"p.pages.ReadPage()", "return &convertedPage{"}, nil},
 		{"writer.go", "func (rg *ConcurrentRowGroupWriter) Commit()", []string{"rg.writer.flush()", "return rg.writer.writeRowGroup(rg, nil, nil)"}, nil},
 		{"writer.go", "func (w *writer) writeRowGroup(", []string{"rowGroupIndex := len(w.rowGroups)", "rg.reset()", "fileOffset := w.writer.offset", "dataPageOffset := w.writer.offset", "c.offsetIndex.PageLocations[j].Offset += dataPageOffset", "io.Copy(&w.writer, c.pageBuffer)"}, nil},
 	}
@@ -642,6 +646,9 @@ func c15Anchors(ctx *core.Ctx) {
 		}
 		if file == "file.go" {
 			return " — registry protocol: Props.C15.registry_linearizable needs every map access under the lock; Props.C15.registry_fast_path_conflict proves that an unlocked lookup admits a map read concurrent with a map write"
+		}
+		if file == "convert.go" {
+			return " — page wrappers of row group views: Props.C15.rowreader_views_pool_exclusive needs every wrapper between the row reader and the decoded page to forward ReleaseAndDetachValues; Props.C15.rowreader_wrapper_slip_not_exclusive proves that a wrapper answering with a plain Release lets another goroutine obtain a buffer the caller's rows still point into"
 		}
 		if file == "column_chunk.go" || file == "row_group.go" || file == "buffer.go" {
 			return " — row reader release paths: Props.C15.rowreader_pool_exclusive needs every path that lets go of a page of a byte-array column to detach its values buffer instead of putting it back; Props.C15.rowreader_close_slip_not_exclusive proves that a put on one of these paths lets another goroutine obtain a buffer the caller's rows still point into"
@@ -691,6 +698,40 @@ func c15Anchors(ctx *core.Ctx) {
 				ctx.Fail("L2", "mirror-anchor-missing "+f.file, fmt.Sprintf("`%s` occurs %d times in %s, the Lean mirror assumes %d%s", stmt, got, f.start, want, poolNote(f.file)),
 					map[string]any{"file": f.file, "function": f.start, "statement": stmt, "occurrences": got, "assumed": want})
 			}
+		}
+	}
+	// page wrappers as a class: every type of the library that takes part in Release (it wraps pooled
+	// storage or a page that does) must also answer ReleaseAndDetachValues — releaseAndDetachValues on
+	// a page without the method does nothing, on a wrapper that has Release only the row reader's
+	// detach request would be lost
+	if ents, err := os.ReadDir(repo); err == nil {
+		releases, detaches := map[string]string{}, map[string]bool{}
+		reRel := regexp.MustCompile(`(?m)^func \(\w+ \*?(\w+)\) (Release|ReleaseAndDetachValues)\(\)`)
+		for _, e := range ents {
+			if e.IsDir() || !strings.HasSuffix(e.Name(), ".go") || strings.HasSuffix(e.Name(), "_test.go") {
+				continue
+			}
+			b, err := os.ReadFile(filepath.Join(repo, e.Name()))
+			if err != nil {
+				continue
+			}
+			for _, m := range reRel.FindAllStringSubmatch(string(b), -1) {
+				if m[2] == "Release" {
+					releases[m[1]] = e.Name()
+				} else {
+					detaches[m[1]] = true
+				}
+			}
+		}
+		for typ, file := range releases {
+			ctx.Hist("mirror_anchor", "releasable page types")
+			if !detaches[typ] {
+				ctx.Fail("L2", "mirror-anchor-missing releasable-without-detach", "type "+typ+" ("+file+") has Release() but no ReleaseAndDetachValues(): a row reader of a byte-array column holding such a page cannot leave the values buffer to the garbage collector"+poolNote("convert.go"),
+					map[string]any{"file": file, "type": typ})
+			}
+		}
+		if len(releases) == 0 {
+			ctx.Fail("L2", "mirror-anchor-missing releasable-without-detach", "no type with a Release() method found in the library: the scan is broken", nil)
 		}
 	}
 	// the registry map is touched nowhere outside its accessor
